@@ -315,6 +315,30 @@ def main(tier, replay=None):
                     why.append(f"{side} line {i} has no partner but carries emphasis")
         if why:
             chk.violation({"property": PID, "shape": "bb-pairing", "case": c, "why": "; ".join(why[:2]), "input": "\n".join(bb_lines(c))})
+    # ---- the distance is measured in display columns (edits.rs annotate: width of the trimmed section): a pair of lines and
+    #      the same pair with every double-width character replaced by two single-width word characters is paired or not
+    #      paired alike at every threshold (a correspondence of the implementation with the width-based reading of the
+    #      distance; the property text itself does not fix the measure)
+    wmism = wn = 0
+    for i in range(150 if tier == "quick" else 2000):
+        rr = vlib.case_rng(chk.seed, PID, ("width", i))
+        def part():
+            return " ".join(rr.choice(["ab", "cd", "x", "中中", "文文文", "日本語日", "中", "efg"]) for _ in range(rr.randint(1, 3)))
+        common, a, b = part(), part(), part()
+        x, y = (common + " " + a, common + " " + b) if rr.random() < 0.5 else (a + " " + common, b + " " + common)
+        narrow = lambda t: "".join("zz" if ord(ch) > 0x2e80 else ch for ch in t)
+        for thr in (0.3, 0.5, 0.6, 0.7, 0.8):
+            r1 = drv.ask("infer_edits", enc([x]), enc([y]), vlib.hexs(RE), thr, 0.0)
+            r2 = drv.ask("infer_edits", enc([narrow(x)]), enc([narrow(y)]), vlib.hexs(RE), thr, 0.0)
+            if not (r1.startswith("OK") and r2.startswith("OK")):
+                continue
+            wn += 1
+            p1, p2 = parse_infer(r1)[2], parse_infer(r2)[2]
+            if p1 != p2:
+                wmism += 1
+                if wmism <= 3:
+                    vlib.log(f"[C06] width-based distance: {x!r} / {y!r} at {thr}: alignment {p1}, with narrow characters {p2}")
+    chk.oblige("correspondence:distance-in-display-columns", wmism == 0, f"{wmism} of {wn} pairs are paired differently when double-width characters are replaced by two single-width ones")
     chk.oblige("correspondence:tokenize+operations", mism == 0, f"{mism} of {nwb} white-box cases differ between model and implementation")
     chk.extra["traces_validated_against_impl"] = nwb - mism
     chk.assumptions = ["\\w of the regex crate = default_is_word on the generator's alphabet (checked by the tokenize correspondence)",
